@@ -56,4 +56,8 @@ MC_Uperm == <<
   <<a, "ex:p", b>>, <<a, "ex:p", x>>, <<a, "ex:p", s1>>, <<b, "ex:p", a>>, <<b, "ex:p", s1>>, <<x, "ex:p", a>>
 >>
 MC_CfgPerm == {[Base EXCEPT !.keepLess = kl, !.salt = sa, !.thr = t, !.inverse = iv] : kl \in B, sa \in {0, 1}, t \in {<<0, 1>>, <<1, 2>>}, iv \in B}
+\* closure of references: thresholds that empty shapes, remove_empty_shapes on / off, class targets, ignored rdf namespace
+MC_CfgC05 == {[Base EXCEPT !.thr = t, !.removeEmpty = re, !.inverse = iv, !.mode = md[1], !.targets = md[2], !.ignoreNs = ig] :
+                 t \in {<<0, 1>>, <<1, 2>>, <<1, 1>>}, re \in B, iv \in B, md \in {<<"all", <<>>>>, <<"classes", <<"ex:C">>>>, <<"classes", <<"ex:C", "ex:D">>>>},
+                 ig \in {<<>>, <<"rdf:">>}}
 =============================================================================
